@@ -11,7 +11,7 @@ import (
 
 func main() {
 	hlib.Guarded(func(run *hlib.Run) {
-		run.Rule = "rings of 2..6 real LocalNodes; a join is paused right after its hand-off (successor Transferring, joiner Joining) or a leave attempt holds its locks (leaver Leaving, successor Transferring); then RequestToJoin / RequestToLeave / executeLeave are issued at busy and idle nodes (second joiner on the same successor, leave racing a join on the same node / its neighbour, leaves of adjacent nodes, both lock orders); non-trivial = distinct (ring, held change, request) where the addressed node or its successor is busy"
+		run.Rule = "rings of 2..6 real LocalNodes; a join is paused right after its hand-off (successor Transferring, joiner Joining) or a leave attempt holds its locks (leaver Leaving, successor Transferring); then RequestToJoin / RequestToLeave / executeLeave are issued at busy and idle nodes (second joiner on the same successor, leave racing a join on the same node / its neighbour, leaves of adjacent nodes, both lock orders; a locked node whose successor leaves completely must stay locked); non-trivial = distinct (ring, held change, request) where the addressed node or its successor is busy"
 		rng := hlib.NewRng(run.Seed)
 		if run.Replay != "" {
 			s := ringh.NewSession(run, rng)
@@ -113,7 +113,7 @@ func main() {
 					}
 				}
 			}
-			switch rng.Intn(3) {
+			switch rng.Intn(4) {
 			case 0: // paused join holds successor + joiner
 				if s.Do("joinbegin", ringh.U(spare[0]), ringh.U(hlib.Pick(rng, members))) == "ok" {
 					probe("held-join")
@@ -125,8 +125,36 @@ func main() {
 				if strings.HasPrefix(res, "ok:") && res != "ok:alone" {
 					probe("held-leave")
 				}
-			default:
+			case 2:
 				probe("idle")
+			default:
+				// a node P holds a lock for a change of its own (here: taken through RequestToLeave, as a leaving
+				// predecessor of P would) while P's SUCCESSOR leaves completely; that leave involves only the leaver and
+				// its successor, so afterwards P must still be locked and still refuse other requests
+				if len(members) >= 3 {
+					p := hlib.Pick(rng, members)
+					if sc, ok := s.SuccOf(p); ok && sc != p && s.Do("reqleave", ringh.U(p)) == "ok" {
+						if s.Do("leave", ringh.U(sc)) == "ok" {
+							var rest []uint64
+							for _, x := range members {
+								if x != sc {
+									rest = append(rest, x)
+								}
+							}
+							members = rest
+						}
+						run.Count("held-by-other:successor-left")
+						for _, lhs := range [][]string{{"reqleave", ringh.U(p)}, {"reqjoin", ringh.U(p), ringh.U(spare[1])}, {"execleave", ringh.U(p)}} {
+							run.Begin(strings.Join(lhs, " "))
+							res := s.Do(lhs...)
+							run.Case(hlib.F("held-by-other|%v|%v", members, lhs))
+							if strings.HasPrefix(res, "ok") {
+								break // (never on a tree where the property holds)
+							}
+						}
+						s.Do("finish", ringh.U(p), "false", "true")
+					}
+				}
 			}
 		}
 	})
